@@ -1,7 +1,7 @@
-// c01f: property C01 for the Intel flash image entry shape — uefi.Parse followed by Save of a
+// Package flashops: property C01 for the Intel flash image entry shape — uefi.Parse followed by Save of a
 // flash image (descriptor + regions) whose BIOS region holds FFS volumes from the reference
 // grammar (verifharness/uefigen) reproduces the image.
-package main
+package flashops
 
 import (
 	"bytes"
@@ -315,10 +315,11 @@ func genBios(r *Rng, maxBlocks int) ([]byte, []uefigen.Field) {
 	return nil, nil
 }
 
-func gen(r *Rng, tier string, emit Emit) {
-	n := 150
+// Gen emits the flash-image cases of property C01.
+func Gen(r *Rng, tier string, emit Emit) {
+	n := 100
 	if tier == "thorough" {
-		n = 3000
+		n = 2500
 	}
 	for it := 0; it < n; it++ {
 		rr := r.Fork(uint64(it))
@@ -329,8 +330,8 @@ func gen(r *Rng, tier string, emit Emit) {
 		f := genFlash(rr, bios, fields)
 		e := encImg(f.img)
 		emit("P", "p_save_identity_flash", e)
-		emit("C", "save", e)
-		emit("C", "bios", e)
+		emit("C", "fsave", e)
+		emit("C", "fbios", e)
 		// outside the theorem's hypotheses / malformed: model and implementation must still agree
 		m := append([]byte{}, f.img...)
 		switch rr.Intn(8) {
@@ -357,13 +358,13 @@ func gen(r *Rng, tier string, emit Emit) {
 			i, j := rr.Intn(15), rr.Intn(2)
 			copy(m[f.rs+4+4*i:f.rs+8+4*i], m[f.rs+4+4*j:f.rs+8+4*j])
 		}
-		emit("C", "save", encImg(m))
+		emit("C", "fsave", encImg(m))
 	}
 }
 
-func main() {
-	Register("save", opSave)
-	Register("bios", opBios)
+// RegisterAll registers the flash-image operations with the worker.
+func RegisterAll() {
+	Register("fsave", opSave)
+	Register("fbios", opBios)
 	Register("p_save_identity_flash", pSaveIdentityFlash)
-	Main(gen)
 }
